@@ -1073,3 +1073,135 @@ reg(dict(
         "the product is reduced: limit combinations are only expanded for well-formed, accepted CONNECTs",
         "keep-alive values are checked as announced in CONNACK; their effect in time is C20",
     ]), ["C19"])
+
+
+# =============================================================================================
+# group "timers": C20  (Timers.tla model + TimerMon.tla, coarse real time)
+
+TIMERS_CFG = """SPECIFICATION ExportSpec
+CONSTANTS
+  KA = {ka}
+  Rate = {rate}
+  RTimeout = 1
+  RMax = {rmax}
+  MaxT = {maxt}
+  Fixed = {fixed}
+VIEW view
+INVARIANT Live
+{dead}
+CHECK_DEADLOCK FALSE
+"""
+
+
+def c20_expect(tokens, ka, rate, rtimeout, rmax):
+    """statement-level expectation for an arrival pattern, robust to +-1 s; None = no expectation"""
+    tick = 0
+    pkts = [0]            # the handshake completes at tick 0
+    part_start = None
+    last_bytes = None
+    for tk in tokens:
+        if tk == "T":
+            tick += 1
+        elif tk in ("P", "Q"):
+            pkts.append(tick)
+            part_start = tick if tk == "Q" else None
+            last_bytes = tick if tk == "Q" else None
+        else:
+            if part_start is None:
+                part_start = tick
+            last_bytes = tick
+    n = tick
+    last = pkts[-1]
+    gaps = [b - a for a, b in zip(pkts, pkts[1:])] + [n - last]
+    if rate > 0 and part_start is not None:
+        # a partial frame is pending: read-rate rules apply
+        if n - last_bytes >= rtimeout + 2 and last_bytes == part_start:
+            t = part_start + rtimeout
+            return ("expect_read", (t - 1) * 1000 - 500, (t + 1) * 1000 + 900)
+        return None
+    if ka > 0 and max(gaps) <= ka - 2:
+        return ("expect_alive", 0, 0)
+    if ka > 0 and n - last >= ka + 2 and all(g <= ka - 2 for g in gaps[:-1]):
+        t = last + ka
+        return ("expect_ka", (t - 1) * 1000 - 500, (t + 1) * 1000 + 900)
+    return None
+
+
+def c20_decode_for(ver, cka, rate, rmax):
+    ka = cka + cka // 2        # server keep-alive = 1.5 x the client's value
+
+    def dec(tokens, variant):
+        exp = c20_expect(tokens, ka, rate, 1, rmax)
+        if exp is None:
+            exp = ("no_expectation", 0, 0)      # still replayed: nothing may panic
+        cfg = dict(role="server", ver=ver, gate_pub=0)
+        if rate:
+            cfg.update(read_rate=rate, read_rate_timeout=1, read_rate_max=rmax)
+        cmds = [{"c": "in", "p": {"t": "connect", "ka": cka}},
+                {"c": "mark", "k": exp[0], "n": exp[1], "r": exp[2]}]
+        partial = False
+        for tk in tokens:
+            if tk == "T":
+                cmds.append({"c": "sleep", "ms": 1000})
+            elif tk == "P":
+                if partial:
+                    return None, None        # (the model completes the frame; keep replays simple)
+                cmds.append({"c": "in", "p": {"t": "pingreq"}})
+            elif tk == "Q":
+                if partial:
+                    return None, None
+                cmds.append({"c": "in", "pkts": [{"t": "pingreq"}, {"t": "publish", "q": 0, "topic": "t", "plen": 200, "send": 0}], "upto": 4})
+                partial = True
+            else:
+                nbytes = int(tk[1:])
+                if not partial:
+                    cmds.append({"c": "in", "p": {"t": "publish", "q": 0, "topic": "t", "plen": 200, "send": 0}, "upto": min(nbytes, 5)})
+                    partial = True
+                else:
+                    cmds.append({"c": "in", "p": {"t": "payload", "n": nbytes}})
+        return cfg, cmds
+    return dec
+
+
+def c20_configs(tier):
+    cs = []
+    for ver in (3, 5):
+        for cka, rate, rmax, maxt in ((2, 0, 2, 7), (2, 4, 2, 6)):
+            ka = cka + cka // 2
+            cs.append((f"v{ver}_ka{cka}_r{rate}",
+                       TIMERS_CFG.format(ka=ka, rate=rate, rmax=rmax, maxt=maxt, fixed="TRUE", dead="INVARIANT Dead\nINVARIANT NoNegative\nINVARIANT Slow"),
+                       "Timers", c20_decode_for(ver, cka, rate, rmax), [None]))
+    return cs
+
+
+def c20_extra(tier, rnd):
+    runs = []
+    for ver in (3, 5):
+        # connect timeout: nothing arrives
+        runs.append(dict(cfg=dict(role="server", ver=ver, connect_timeout=2),
+                         cmds=[{"c": "mark", "k": "expect_drop", "n": 1000, "r": 4500}] + [{"c": "sleep", "ms": 1000}] * 5, src="connect_timeout"))
+        # client keep-alive pings
+        runs.append(dict(cfg=dict(role="client", ver=ver, client_keep_alive=2),
+                         cmds=[{"c": "in", "p": {"t": "connack", "rc": 0}}, {"c": "mark", "k": "expect_pings", "n": 2}] + [{"c": "sleep", "ms": 1000}] * 7,
+                         src="client_ping"))
+        # keep-alive 0 and a server override
+        runs.append(dict(cfg=dict(role="server", ver=ver, ack_keep_alive=2),
+                         cmds=[{"c": "in", "p": {"t": "connect", "ka": 20}}, {"c": "mark", "k": "expect_ka", "n": 500, "r": 3900}] + [{"c": "sleep", "ms": 1000}] * 5,
+                         src="override"))
+    return runs
+
+
+reg(dict(
+    name="timers", judge="TimerJudge", configs=c20_configs, extra_runs=c20_extra,
+    signature=lambda v: f"{v['why']}|v{v['cfg']['ver']}|{v['cfg']['role']}|rate{v['cfg'].get('read_rate', 0)}",
+    level={}, quota=14, quota_thorough=400, tail_cmds=(),
+    rule="Timers.tla (update_timer / handle_timeout on a 1 s clock) is checked exhaustively by TLC over every arrival "
+         "pattern of <= 7 ticks (complete packet, complete packet followed by the start of the next frame in the same "
+         "read, 1 or 8 more bytes of a partial frame, silence) for keep-alive 3 s with and without a read rate: "
+         "invariants Live, Dead, NoNegative; patterns whose statement-level verdict is robust to +-1 s are replayed "
+         "under real time on v3 and v5 servers (quick: a seeded dozen per configuration, thorough: up to 400), plus "
+         "connect timeout, server keep-alive override and client PINGREQ runs; TimerMon judges time and reason of the end",
+    assumptions=[
+        "real time with 1 s ticks and +-1 s tolerance; sub-second timer behaviour is outside the claim",
+        "expectations are computed from the statement by the generator, the model's own verdict is only used for conformance statistics",
+    ]), ["C20"])
